@@ -51,7 +51,7 @@ func checkC02(w *World, r *Report) {
 		"that cumulative emission equals the integer part of the schedule's cumulative emission: the formulas in LinearMinting / ExponentialStepMinting.AmountToMint are arithmetic; a wrong coefficient that keeps the shape is invisible to these rules",
 	}
 	r.Rule("C02.fromscratch", "P6", "the minted amount = TruncateInt(AmountToMint(periodStart, blockTime) + RemainderFromPreviousMinter) - AmountMinted; it is independent of the previous block time (LastMintBlockTime is used only by the same-block guard); only truncation occurs on the slice, never rounding up", 5)
-	r.Rule("C02.nonneg", "P5", "BANK.mint and the update of AmountMinted are dominated by the false edge of amount.IsNegative()", 2)
+	r.Rule("C02.nonneg", "P5", "BANK.mint and the update of AmountMinted are dominated by the false edge of amount.IsNegative(); the update of AmountMinted is dominated by the success edges of the calls that mint and forward (a refused mint leaves the state untouched, the next block catches up)", 2)
 	r.Rule("C02.boundaries", "P7", "ordering tables: Mint before StartTime has no effect; hand-over: no EndTime or now before it => stay, now after it => history + successor; LinearMinting: now before start => zero, now after end => the full Amount; ExponentialStepMinting: now after end => the computation uses end and no returned value depends on the block time (origins restricted to live edges)", 15)
 	r.Rule("C02.carry", "P6", "successor state: SequenceId = old+1, AmountMinted = 0, RemainderFromPreviousMinter = fractional part of this period's total (not a constant); the history entry is the old state after its own update; the amount returned upward = minted(successor) + amount", 5)
 	r.Rule("C02.units", "P9", "units of measure over SSA: in the two schedule formulas every sum, difference, comparison and merge combines values of the same time scale (ns / ms / s are distinct units), conversions to Duration and Time.Add receive ns, and the amount returned is a pure number (amount x time / time in one scale) - so the result cannot depend on the scale or on sub-unit truncation of one operand only", 2)
@@ -123,6 +123,18 @@ func checkC02(w *World, r *Report) {
 			}
 			seenTop[top] = true
 			r.Check(MustPass(mint, edges, top.Block()), "C02.nonneg", "mint only for a non-negative amount", w.Pos(top.Pos()), "dominated by the false edge of amount.IsNegative()", "a negative amount can reach the bank's MintCoins")
+		}
+		// (= C01.mint1, last clause) the amount is counted as minted only after the bank minted and forwarded it: a
+		// block whose mint is refused must leave the state untouched, so that the next block mints what is missing
+		seenTop = map[ssa.Instruction]bool{}
+		for _, e := range w.effectsBelow(mint, func(x *Site) bool { a := cg.Atom(x); return a == BankMint || a == BankMove }, 3) {
+			top := e.Top()
+			if seenTop[top] {
+				continue
+			}
+			seenTop[top] = true
+			tv, _ := top.(ssa.Value)
+			r.Check(tv != nil && OnSuccessEdge(mint, amStore, tv), "C02.nonneg", "AmountMinted updated only after the bank operation succeeded", w.Pos(amStore.Pos()), "dominated by the nil edge of the error of "+w.Pos(top.Pos()), "the amount is counted as minted before (or although) the bank minted and forwarded it: after a refused mint the schedule never catches up")
 		}
 	}
 	// ---------- C02.boundaries (a): Keeper.Mint ----------
